@@ -5,6 +5,7 @@ SamplePostprocessor keeps it) is fed a generated sample stream cut into
 successive batches. Every tuple it emits is compared with a reference computed
 from the whole stream with exact Fractions: cumulative operations / elapsed time.
 """
+import collections
 from fractions import Fraction
 
 from esrally import metrics
@@ -23,8 +24,9 @@ ASSUMPTIONS = [
     "float comparison with relative tolerance 1e-9",
 ]
 REQUIRED_CLAUSES = ["carry-conservation", "value-in-bounds", "exact-cumulative", "nonneg", "type-monotone", "unit", "normal-value-exists", "passthrough", "batching-invariance",
-                    "runner-throughput-reaches-sample", "passthrough-end-to-end"]
-REQUIRED_FEATURES = {"three-batches-in-one-bucket": 5, "out-of-order": 5, "warmup-to-normal": 5, "runner-supplied": 5, "host-skew": 3, "class-executor": 20, "runner-supplied-zero": 5}
+                    "runner-throughput-reaches-sample", "passthrough-end-to-end", "driver-keeps-calculator-across-batches"]
+REQUIRED_FEATURES = {"three-batches-in-one-bucket": 5, "out-of-order": 5, "warmup-to-normal": 5, "runner-supplied": 5, "host-skew": 3, "class-executor": 20, "runner-supplied-zero": 5,
+                     "class-driver": 100, "driver-tick-then-join-point": 50, "driver-two-steps": 50}
 BUDGET = {
     "quick": {"cases": 160000, "seconds": 40},
     "thorough": {"cases": 1200000, "seconds": 600},
@@ -70,6 +72,13 @@ def gen_case(rng):
         tasks.append({"unit": unit, "supplied": supplied, "t0": t0, "clients": nclients})
         if supplied:
             feats.add("runner-supplied")
+            if rng.random() < 0.35:
+                # on-error=continue (the default): a request of such a task that fails is sampled the way execute_single reports every failure:
+                # no operations, unit "ops", and no throughput from the runner
+                for s in samples:
+                    if rng.random() < 0.3:
+                        s.update(thr=None, ops=0, unit="ops", failed=True)
+                        feats.add("runner-supplied-with-failed-requests")
         if any(s["type"] == int(W) for s in samples) and any(s["type"] == int(N) for s in samples):
             feats.add("warmup-to-normal")
         # arrival order
@@ -187,13 +196,14 @@ def run_calculator(tobjs, sobjs, arrival, cuts):
     return emitted
 
 
-def check_case(ctx, tasks, arrival, cuts, report=True):
-    """Returns list of (clause, msg, detail) problems; counts clause evaluations on ctx."""
+def check_case(ctx, tasks, arrival, cuts, report=True, emit=None):
+    """Returns list of (clause, msg, detail) problems; counts clause evaluations on ctx.
+    emit: what turns the batches into emitted throughput tuples (default: one real calculator kept across the batches; c06_driver: the real Driver)."""
     problems = []
     tobjs, sobjs = build_objects(tasks, arrival)
     ctx.clause("carry-conservation")
     try:
-        emitted = run_calculator(tobjs, sobjs, arrival, cuts)
+        emitted = (emit or run_calculator)(tobjs, sobjs, arrival, cuts)
     except CarryOverflow as e:
         return [("carry-conservation", str(e), None)], [dict() for _ in tasks]
     batch_ix = batches_of(list(range(len(arrival))), cuts)
@@ -203,6 +213,7 @@ def check_case(ctx, tasks, arrival, cuts, report=True):
     normal_values = [0] * ntasks
     pass_expected = [[] for _ in range(ntasks)]
     pass_got = [[] for _ in range(ntasks)]
+    failed_at = [set() for _ in range(ntasks)]
     by_abs_value = [dict() for _ in range(ntasks)]
     for bi, idxs in enumerate(batch_ix):
         cur = [[] for _ in range(ntasks)]
@@ -217,7 +228,10 @@ def check_case(ctx, tasks, arrival, cuts, report=True):
             t0 = tasks[ti]["t0"]
             if tasks[ti]["supplied"]:
                 for s in sorted(cur[ti], key=lambda s: s["abs"]):
-                    pass_expected[ti].append((s["abs"], s["type"], s["thr"], s["unit"] + "/s"))
+                    if s.get("failed"):
+                        failed_at[ti].add(s["abs"])
+                    else:
+                        pass_expected[ti].append((s["abs"], s["type"], s["thr"], s["unit"] + "/s"))
                 for (a, r, st, v, u) in tuples:
                     pass_got[ti].append((a, int(st), v, u))
                 fed[ti].extend(cur[ti])
@@ -268,8 +282,22 @@ def check_case(ctx, tasks, arrival, cuts, report=True):
     for ti in range(ntasks):
         if tasks[ti]["supplied"]:
             ctx.clause("passthrough")
-            if sorted(pass_expected[ti]) != sorted(pass_got[ti]):
-                problems.append(("passthrough", f"runner-supplied throughput of task{ti} was not passed through unchanged, once per sample", {"expected": pass_expected[ti][:5], "got": pass_got[ti][:5]}))
+            # every supplied value exactly once and unchanged; a failed request of such a task (no throughput from the runner) may get no value or
+            # a number, but nothing else may be emitted and nothing that is not a non-negative number
+            left = collections.Counter(pass_got[ti])
+            missing = []
+            for e in pass_expected[ti]:
+                if left[e] > 0:
+                    left[e] -= 1
+                else:
+                    missing.append(e)
+            extra = [g for g, k in left.items() for _ in range(k)]
+            bad_extra = [g for g in extra if g[0] not in failed_at[ti] or isinstance(g[2], bool) or not isinstance(g[2], (int, float)) or not g[2] >= 0]
+            if missing or bad_extra:
+                what = "was not passed through unchanged, once per sample" if missing else "comes with values that no sample supplied"
+                if failed_at[ti]:
+                    what += f" ({len(failed_at[ti])} failed request(s) without a throughput among the samples)"
+                problems.append(("passthrough", f"runner-supplied throughput of task{ti} {what}", {"supplied-but-not-emitted": missing[:5], "emitted-but-not-supplied": bad_extra[:5], "failed": bool(failed_at[ti])}))
             continue
         alls = fed[ti]
         if any(s["type"] == int(N) for s in alls) and max(s["abs"] for s in alls) - tasks[ti]["t0"] > 0:
@@ -360,11 +388,13 @@ def shrink(case, clause):
 
 
 def run_shard(ctx):
-    from props import c06_exec
+    from props import c06_driver, c06_exec
 
     i = 0
     while ctx.more():
-        if i % 150 == 75:
+        if i % 40 == 20:
+            c06_driver.one_case(ctx, ctx.case_rng(f"driver{i}"))  # the same streams, batched by the real Driver (periodic tick, join points, two steps)
+        elif i % 150 == 75:
             c06_exec.one_case(ctx, ctx.case_rng(f"exec{i}"))  # runner -> real executor -> real sampler -> real calculator (costs ~100 calculator cases)
         else:
             one_case(ctx, ctx.case_rng(i))
@@ -384,6 +414,11 @@ def replay(ctx, rec):
     case = rec["witness"]["case"]
     meta = dict(case["meta"])
     meta["features"] = set(meta.get("features", []))
+    if rec["witness"].get("class") == "driver":
+        from props import c06_driver
+
+        c06_driver.one_case(ctx, None, explicit=(case["tasks"], case["arrival"], case["cuts"], meta))
+        return
     one_case(ctx, None, explicit=(case["tasks"], case["arrival"], case["cuts"], meta))
 
 
